@@ -36,15 +36,37 @@ EXEMPT = {
 }
 
 
+def _local_receivers(fn):
+    """local names bound exactly once to an attribute chain (`acc = self.access`): name -> chain"""
+    stores = {}
+    for n in ast.walk(fn):
+        if isinstance(n, ast.Name) and isinstance(n.ctx, (ast.Store, ast.Del)):
+            stores[n.id] = stores.get(n.id, 0) + 1
+    out = {}
+    for n in ast.walk(fn):
+        if isinstance(n, ast.Assign) and len(n.targets) == 1 and isinstance(n.targets[0], ast.Name) and stores.get(n.targets[0].id) == 1 \
+                and isinstance(n.value, ast.Attribute) and not any(isinstance(c, ast.Call) for c in ast.walk(n.value)):
+            out[n.targets[0].id] = ast.unparse(n.value)
+    return out
+
+
+def _guard_callee(fn, call):
+    """dotted callee with a local receiver name replaced by the attribute chain it stands for"""
+    d = _callee(call)
+    head, _, rest = d.partition(".")
+    recv = _local_receivers(fn)
+    return f"{recv[head]}.{rest}" if head in recv and rest else d
+
+
 def _first_guard_index(fn, names=("assert_writeable",)):
     for i, st in enumerate(fn.body):
-        if isinstance(st, ast.Expr) and isinstance(st.value, ast.Call) and _callee(st.value).split(".")[-1] in names \
-                and "access" in _callee(st.value):
+        if isinstance(st, ast.Expr) and isinstance(st.value, ast.Call) and _guard_callee(fn, st.value).split(".")[-1] in names \
+                and "access" in _guard_callee(fn, st.value):
             return i
         if isinstance(st, ast.If):
             # dump(): guard sits in the branch that selects the default (permanent) archive
             for c in _calls(st):
-                if _callee(c).split(".")[-1] in names and "access" in _callee(c):
+                if _guard_callee(fn, c).split(".")[-1] in names and "access" in _guard_callee(fn, c):
                     return i
     return None
 
@@ -154,16 +176,16 @@ def run(chk):
                "Inventory.__setitem__ updates its in-memory cache before (or without) assert_writeable", where=inv_set.where,
                detail="cache assigned after the guard")
     inv_get = src.func("eko.io.inventory.Inventory.__getitem__")
+    def _preamble(st):
+        """docstring, or a local name bound to a call-free attribute chain: nothing is read or changed yet"""
+        return (isinstance(st, ast.Expr) and isinstance(st.value, ast.Constant)) or (
+            isinstance(st, ast.Assign) and isinstance(st.value, ast.Attribute) and not any(isinstance(c, ast.Call) for c in ast.walk(st.value)))
+
     chk.decide(_first_guard_index(inv_get.node, ("assert_open", "assert_writeable")) == next(
-        (i for i, st in enumerate(inv_get.node.body) if not (isinstance(st, ast.Expr) and isinstance(st.value, ast.Constant))), None),
-        "reader-asserts-open", inv_get.qname, "Inventory.__getitem__ does not start with assert_open", where=inv_get.where)
+        (i for i, st in enumerate(inv_get.node.body) if not _preamble(st)), None),
+        "reader-asserts-open", inv_get.qname, "Inventory.__getitem__ looks the item up before (or without) assert_open", where=inv_get.where)
     fclose = src.func("eko.io.struct.EKO.close")
-    dump_calls = [c for c in _calls(fclose.node) if _callee(c).endswith(".dump")]
-    ok = bool(dump_calls)
-    for st in ast.walk(fclose.node):
-        if isinstance(st, ast.If) and any(c in list(_calls(st)) for c in dump_calls):
-            ok = ok and "readonly" in ast.unparse(st.test) and ast.unparse(st.test).startswith("not")
-    chk.decide(ok, "close-dumps-only-when-writeable", fclose.qname, "EKO.close dumps without testing `not readonly`", where=fclose.where)
+    chk.need(bool(fclose.node.body), "EKO.close has no body")
     _semantic(chk, src)
     chk.note(truth_table_rows=n_rows, fs_sites=n_sites, exempt=EXEMPT, files=["src/eko/io/access.py", "src/eko/io/struct.py",
                                                                               "src/eko/io/inventory.py", "src/eko/io/metadata.py"])
@@ -200,6 +222,8 @@ def _semantic(chk, src):
 
     ep_old, ep_new = (Fraction(100), 5), (Fraction(400), 5)
     n = 0
+    n_close = 0
+    fclose = src.func("eko.io.struct.EKO.close")
     for state, (ro, op_) in {"read-only": (True, True), "closed (was writable)": (False, False), "closed read-only": (True, False)}.items():
         for warmed in (False, True):
             fs = fsmodel.FS()
@@ -251,15 +275,37 @@ def _semantic(chk, src):
             for what, go in attempts.items():
                 inst = f"{state},{'after looking the items up' if warmed else 'fresh session'},{what}"
                 raised = None
+                mark = len(fs.log)
                 try:
                     go()
                 except PERaise as e:
                     raised = e.etype
                 n += 1
-                same = fs.files == before
+                same = fs.files == before and not [ev for ev in fs.log[mark:] if ev[0] != "read"]   # not even a rewrite with the same content
                 chk.decide(raised in ("ReadOnlyOperator", "ClosedOperator") and same, "store-attempts-raise-and-leave-the-files-alone", ekoc.qname,
                            f"{inst}: raised {raised}; files unchanged: {same} - every attempt to store in a read-only or closed EKO must raise the "
                            f"permission error and touch nothing", where=ekoc.where, instance=inst, how="PE on a model file system")
                 fs.files.clear()
                 fs.files.update(before)
+            # close() of such an EKO: the permanent archive stays as it is (only the working directory may go)
+            archive = {k: v for k, v in before.items() if not k.startswith("/work")}
+            raised = None
+            mark = len(fs.log)
+            try:
+                pe.apply(bound(eko, "close"), [], {})
+            except PERaise as e:
+                raised = e.etype
+            n_close += 1
+            after = {k: v for k, v in fs.files.items() if not k.startswith("/work")}
+            touched = [ev for ev in fs.log[mark:] if ev[0] != "read" and any(not str(x).startswith("/work") for x in ev[1:])]
+            chk.decide(not touched, "close-dumps-only-when-writeable", fclose.qname,
+                       f"{state},{'after looking the items up' if warmed else 'fresh session'},close(): file-system operations outside the working "
+                       f"directory: {touched[:3]} - closing a read-only or closed EKO must not write, replace or remove anything there",
+                       where=fclose.where, instance=f"{state},{warmed},close() operations", how="PE on a model file system (operation log)")
+            inst = f"{state},{'after looking the items up' if warmed else 'fresh session'},close()"
+            chk.decide(after == archive and archive, "close-dumps-only-when-writeable", fclose.qname,
+                       f"{inst}: {'raised ' + raised + '; ' if raised else ''}the files outside the working directory changed "
+                       f"({sorted(k for k in set(after) | set(archive) if after.get(k) != archive.get(k))[:3]}) - closing a read-only or closed EKO must leave the archive alone",
+                       where=fclose.where, instance=inst, how="PE on a model file system")
     chk.floor("store attempts on read-only / closed EKOs", n, 50)
+    chk.floor("close() of read-only / closed EKOs", n_close, 6)
